@@ -22,7 +22,7 @@ EXPLANATION = ('def-use / ordering analysis of the parallel lists (samples, name
                'agreement of sample slices and configuration ranges; symbolic struct sizes and offsets')
 LEVEL_TEXT = ('decides only: no reader reorders replica names independently of the file list the samples were read from; listings are sorted numerically before positional use; range / stride / '
               'explicit selections slice samples and configuration numbers identically; binary layouts are self-consistent. That the numbers equal the stored ones for arbitrary files is not decided.')
-TECHNIQUE = 'parallel-list ordering discipline (dataflow), listing-to-sort taint rule, slice/range agreement, symbolic struct layouts'
+TECHNIQUE = 'parallel-list ordering discipline (dataflow), listing-to-sort taint rule, slice/range agreement, symbolic struct layouts, small-domain evaluation of the extracted record-distribution statements on token records, stale-buffer rule'
 
 SORT_CALLS = ('sorted', 'sort_names')
 
